@@ -4,6 +4,7 @@ import ast
 from ..report import AnalysisError, norm
 from ..srcmodel import own_nodes, own_statements
 from ..strbuild import DEN, NEG, NUM, POS, Builder
+from ..accum import accumulations as _accumulations, entry_path as _entry_path
 from ..terms import Resolver, alternatives, show, walk
 
 PROP = "C20"
@@ -247,59 +248,6 @@ def r4_repr(rep, ctx):
 
 
 MAPF = ("field", "_category_to_unit_and_exps")
-
-
-def _entry_path(t):
-    """t taken out of an entry of `<map>.items()` / `.values()` -> (map term, path inside the (key, [unit, exp]) entry)."""
-    path = []
-    while t[0] == "sub" and t[2][0] == "const" and isinstance(t[2][1], int):
-        path.insert(0, t[2][1])
-        t = t[1]
-    if t[0] == "elem" and t[1][0] == "call" and t[1][1][0] == "attr" and t[1][1][2] in ("items", "values") and not t[1][2]:
-        if t[1][1][2] == "values":
-            path.insert(0, 1)
-        return t[1][1][1], tuple(path)
-    return None, None
-
-
-def _accumulations(m, fn, res):
-    """Statements `D[K] = D.get(K, 0) + X` / `D[K] += X` inside a loop -> [{st, dict, key, added, loop, conditional}]."""
-    out = []
-    for st in own_statements(fn.node):
-        tgt = None
-        if isinstance(st, ast.Assign) and len(st.targets) == 1 and isinstance(st.targets[0], ast.Subscript):
-            tgt = st.targets[0]
-        elif isinstance(st, ast.AugAssign) and isinstance(st.target, ast.Subscript) and isinstance(st.op, ast.Add):
-            tgt = st.target
-        if tgt is None or not isinstance(tgt.value, ast.Name):
-            continue
-        loop, conditional, p = None, False, getattr(st, "_parent", None)
-        while p is not None and p is not fn.node:
-            if isinstance(p, (ast.If, ast.Try, ast.While)):
-                conditional = True
-            if isinstance(p, ast.For):
-                loop = p
-                break
-            p = getattr(p, "_parent", None)
-        if loop is None:
-            continue
-        K = res.term(tgt.slice)
-        if isinstance(st, ast.AugAssign):
-            added = res.term(st.value)
-        else:
-            v = res.term(st.value)
-            if not (v[0] == "op" and v[1] == "Add" and len(v[2]) == 2):
-                continue
-
-            def is_get(x):
-                return x[0] == "call" and x[1][0] == "attr" and x[1][2] == "get" and len(x[2]) == 2 and x[2][0] == K and x[2][1] == ("const", 0)
-
-            a_, b_ = v[2]
-            added = b_ if is_get(a_) else a_ if is_get(b_) else None
-            if added is None:
-                continue
-        out.append({"st": st, "dict": tgt.value, "key": K, "added": added, "loop": loop, "conditional": conditional})
-    return out
 
 
 def _filtered_views(fn):
